@@ -1,6 +1,11 @@
 ------------------------------ MODULE BatchData ------------------------------
 (* Stand-in for the generated batch module (see hv/runner.py): an empty batch.  During a check a module *)
 (* of the same name in the scratch directory of the run shadows this one.                                *)
-EXTENDS SphinxCode
+(*   MCProgs    compiled programs: sequence of [code, rt, inits] (hv/export.py)                          *)
+(*   MCSources  source programs in the HiDIR representation (hv/ir.py)                                   *)
+(*   MCCases    one record per (source, input): [src, frame0, store0, g0, strs]                          *)
+EXTENDS SphinxCode, HiDIR
 MCProgs == <<>>
+MCSources == <<>>
+MCCases == <<>>
 =============================================================================
